@@ -183,7 +183,7 @@ func main() {
 		chainmc.ReplayFile(run, m)
 		return
 	}
-	run.SetBudget(5*60e9, 40*60e9)
+	run.SetBudget(5*60e9, 20*60e9)
 	depth := 5
 	if run.Thorough() {
 		depth = 6
